@@ -1,0 +1,75 @@
+use std::marker::PhantomData;
+
+/// An owning iterator over a run of consecutive, initialized elements that are reserved for one caller.
+///
+/// Elements are moved out one by one while iterating;
+/// elements which are not yielded are dropped together with the iterator.
+/// The memory holding the elements is neither owned nor released by the iterator.
+pub(crate) struct TakenSlice<T> {
+    ptr: *mut T,
+    len: usize,
+    idx: usize,
+    phantom: PhantomData<T>,
+}
+
+impl<T> TakenSlice<T> {
+    /// Creates the owning iterator over the `len` elements starting at `ptr`.
+    ///
+    /// # Safety
+    ///
+    /// `ptr..ptr+len` must be valid, initialized elements which are not accessed, moved or dropped by anyone else.
+    pub(crate) unsafe fn new(ptr: *mut T, len: usize) -> Self {
+        Self {
+            ptr,
+            len,
+            idx: 0,
+            phantom: PhantomData,
+        }
+    }
+}
+
+impl<T> Iterator for TakenSlice<T> {
+    type Item = T;
+
+    #[inline]
+    fn next(&mut self) -> Option<Self::Item> {
+        match self.idx < self.len {
+            true => {
+                // SAFETY: idx-th element is in bounds, initialized and will never be read again
+                let value = unsafe { self.ptr.add(self.idx).read() };
+                self.idx += 1;
+                Some(value)
+            }
+            false => None,
+        }
+    }
+
+    #[inline]
+    fn size_hint(&self) -> (usize, Option<usize>) {
+        let len = self.len - self.idx;
+        (len, Some(len))
+    }
+}
+
+impl<T> ExactSizeIterator for TakenSlice<T> {
+    #[inline]
+    fn len(&self) -> usize {
+        self.len - self.idx
+    }
+}
+
+impl<T> Drop for TakenSlice<T> {
+    fn drop(&mut self) {
+        let (idx, len) = (self.idx, self.len);
+        self.idx = len;
+        // SAFETY: elements idx..len are in bounds, initialized and not yielded
+        unsafe {
+            let remaining = std::ptr::slice_from_raw_parts_mut(self.ptr.add(idx), len - idx);
+            std::ptr::drop_in_place(remaining);
+        }
+    }
+}
+
+unsafe impl<T: Send> Send for TakenSlice<T> {}
+
+unsafe impl<T: Sync> Sync for TakenSlice<T> {}
